@@ -997,8 +997,12 @@ func c19ToCSV(b []byte, o c19Opts) (csvText []byte, err error) {
 	if o.trim {
 		opts = append(opts, fitcsv.WithTrimTrailingCommas())
 	}
-	if o.disk {
-		opts = append(opts, fitcsv.WithUseDisk(512))
+	if o.disk { // write buffer of the temporary file: default, tiny, odd, ordinary (the output does not depend on it)
+		opts = append(opts, fitcsv.WithUseDisk([]int{512, 0, 1, 7, 4096}[len(b)%5]))
+	}
+	// queue length between the decoder's goroutine and the converter's: none of the values may change the output
+	if k := len(b) % 7; k < 5 {
+		opts = append(opts, fitcsv.WithChannelBufferSize([]int{1, 2, 3, 64, 100000}[k]))
 	}
 	conv := fitcsv.NewFITToCSVConv(&w, opts...)
 	dec := decoder.New(bytes.NewReader(b), append(c19DecOpts(o.expand), decoder.WithMesgDefListener(conv), decoder.WithMesgListener(conv),
